@@ -151,7 +151,7 @@ Definition check_par (prop : Z) (inp impl : sx) : sx :=
   (* ---- real TCP runs against a loopback target *)
   | L [A 12; A me; A capab], L [A status; A has_ns; A has_cause_i; A syn; A ackpsh; A accepted; L closes; A tuple_mismatch; A endpoint_mismatch; A drained; A foreign_hops; A leaked] =>
       let m := d_method me in
-      let fault := if (capab <=? 1) || (capab =? 10) then FNone else if capab =? 2 then FNoSackPermitted else if (capab =? 3) || (capab =? 9) then FAckWithoutSack
+      let fault := if (capab <=? 1) || (capab =? 10) || (capab =? 11) then FNone else if capab =? 2 then FNoSackPermitted else if (capab =? 3) || (capab =? 9) then FAckWithoutSack
                    else if capab =? 4 then FDial injected else if capab =? 5 then FHandshakeNotCaptured else if capab =? 6 then FFilter injected
                    else if capab =? 7 then FSend injected else FRead injected in
       (* the SYN traceroute's own outcome under the injected fault (filter fault = 2nd install: never reached by SYN) *)
